@@ -544,9 +544,10 @@ fn main() {
     let enumerated = tabs.len();
     tabs.extend(hand_made_tables());
     assert!(tabs.iter().all(refs::table_well_formed));
-    // special-token configs combined with merge tables: all in the thorough tier, in the quick tier the
-    // default list with prefix / suffix, the one with duplicates and the one with extra tokens
-    let bpe_specs: Vec<usize> = run.pick(vec![1, 2, 3], (0..specs.len()).collect());
+    // special-token configs combined with merge tables (BPETokenizer::new compiles two regexes, ~0.3 ms):
+    // quick: the default list with prefix / suffix, the one with duplicates and the one with extra
+    // tokens; thorough: all but the first (which is the second without prefix / suffix)
+    let bpe_specs: Vec<usize> = run.pick(vec![1, 2, 3], vec![1, 2, 3, 4, 5]);
     // units: one per (byte kind, spec), then one per (char kind, spec), then one per (merge table, spec)
     let n_byte = (bytes.len() * specs.len()) as u64;
     let n_char = (chars.len() * specs.len()) as u64;
